@@ -135,17 +135,25 @@ type sdesc struct {
 	Source string
 	Val    float64
 	TS     int64
+	Rate   float64 `json:",omitempty"` // 0 means 1
+}
+
+func (s sdesc) rate() float64 {
+	if s.Rate == 0 {
+		return 1
+	}
+	return s.Rate
 }
 
 func toDP(s sdesc) mapref.DP {
-	return mapref.DP{Type: s.Type, Name: s.Name, Tags: s.Tags, Source: s.Source, Value: s.Val, Str: fmt.Sprint("m", s.Val), Rate: 1, TS: s.TS}
+	return mapref.DP{Type: s.Type, Name: s.Name, Tags: s.Tags, Source: s.Source, Value: s.Val, Str: fmt.Sprint("m", s.Val), Rate: s.rate(), TS: s.TS}
 }
 
 func build(ss []sdesc) *gostatsd.MetricMap {
 	mm := gostatsd.NewMetricMap(false)
 	for _, s := range ss {
 		ty := map[string]gostatsd.MetricType{"c": gostatsd.COUNTER, "g": gostatsd.GAUGE, "ms": gostatsd.TIMER, "s": gostatsd.SET}[s.Type]
-		mm.Receive(&gostatsd.Metric{Name: s.Name, Type: ty, Value: s.Val, StringValue: fmt.Sprint("m", s.Val), Rate: 1, Tags: append(gostatsd.Tags{}, s.Tags...), Source: gostatsd.Source(s.Source), Timestamp: gostatsd.Nanotime(s.TS)})
+		mm.Receive(&gostatsd.Metric{Name: s.Name, Type: ty, Value: s.Val, StringValue: fmt.Sprint("m", s.Val), Rate: s.rate(), Tags: append(gostatsd.Tags{}, s.Tags...), Source: gostatsd.Source(s.Source), Timestamp: gostatsd.Nanotime(s.TS)})
 	}
 	return mm
 }
@@ -295,7 +303,7 @@ func seriesFamily() [][]sdesc {
 	for _, n := range []string{"a", "ab", "b"} {
 		for ti, tl := range tagLists {
 			for _, src := range []string{"", "h"} {
-				s := sdesc{"c", n, tl, src, float64(1 + ti), int64(10 + ti)}
+				s := sdesc{"c", n, tl, src, float64(1 + ti), int64(10 + ti), 0}
 				fam = append(fam, []sdesc{s})
 				if n != "b" && (ti == 0 || ti == 1 || ti == 4 || ti == 5 || ti == 6 || ti == 8) {
 					core = append(core, s)
@@ -316,6 +324,13 @@ func seriesFamily() [][]sdesc {
 				x2.Type, y2.Type = ty, ty
 				y2.TS = x2.TS + int64(j%2) // equal and different timestamps
 				fam = append(fam, []sdesc{x2, y2})
+				if (ty == "c" || ty == "ms") && (i+j)%2 == 0 { // client-side sampling on either of the two
+					x3, y3 := x2, y2
+					y3.Rate = 0.25
+					fam = append(fam, []sdesc{x3, y3})
+					x3.Rate, y3.Rate = 0.5, 0
+					fam = append(fam, []sdesc{x3, y3})
+				}
 			}
 		}
 	}
@@ -392,7 +407,7 @@ func main() {
 			}
 		}
 	}
-	res.Sample(tcase{[]fspec{{Match: []string{"a*"}, DropTags: []string{"k:*"}, DropHost: true}}, []string{"s", "a"}, []sdesc{{"c", "a", []string{"k:v"}, "h", 5, 14}, {"c", "a", []string{"k:w"}, "", 6, 15}}})
+	res.Sample(tcase{[]fspec{{Match: []string{"a*"}, DropTags: []string{"k:*"}, DropHost: true}}, []string{"s", "a"}, []sdesc{{"c", "a", []string{"k:v"}, "h", 5, 14, 0}, {"c", "a", []string{"k:w"}, "", 6, 15, 0}}})
 	res.DistinctNontrivial = nontrivial
 	res.States = nontrivial
 	res.Transitions = res.Evaluations
